@@ -12,14 +12,16 @@ use std::path::PathBuf;
 
 pub struct FileStack {
     current_location: Option<PathBuf>,
+    /// The file which is currently being parsed.
+    current_file: Option<PathBuf>,
     /// The directories which have been searched for input files.
     visited_directories: HashSet<PathBuf>,
     black_paths: HashSet<PathBuf>,
     user_inputs: HashSet<PathBuf>,
     libraries: Vec<Library>,
     stack: Vec<PathBuf>,
-    /// The include statements which refer to a file.
-    included_from: HashMap<PathBuf, Vec<Include>>,
+    /// The include statements which refer to a file, each with the file it occurs in.
+    included_from: HashMap<PathBuf, Vec<(Include, PathBuf)>>,
 }
 
 #[derive(Debug)]
@@ -34,6 +36,7 @@ impl FileStack {
     pub fn new(paths: &[PathBuf], libs: &[PathBuf], reports: &mut ReportCollection) -> FileStack {
         let mut result = FileStack {
             current_location: None,
+            current_file: None,
             visited_directories: HashSet::new(),
             black_paths: HashSet::new(),
             user_inputs: HashSet::new(),
@@ -123,7 +126,7 @@ impl FileStack {
         match fs::canonicalize(&location) {
             // A directory is not a file that can be included.
             Ok(path) if !path.is_dir() => {
-                self.included_from.entry(path.clone()).or_default().push(include.clone());
+                self.add_included_from(&path, include);
                 if !self.black_paths.contains(&path) {
                     debug!("adding local or absolute include `{}`", location.display());
                     self.stack.push(path);
@@ -144,7 +147,7 @@ impl FileStack {
                 debug!("searching for `{}` in `{}`", include.path, lib.path.display());
                 if let Some(path) = fs::canonicalize(&libpath).ok().filter(|path| !path.is_dir()) {
                     debug!("adding include `{}` from directory", libpath.display());
-                    self.included_from.entry(path.clone()).or_default().push(include.clone());
+                    self.add_included_from(&path, include);
                     self.stack.push(path);
                     return Ok(());
                 }
@@ -155,11 +158,9 @@ impl FileStack {
                     debug!("checking if `{}` matches `{}`", include.path, lib.path.display());
                     if lib.name.as_ref() == Some(&pathos) {
                         debug!("adding include `{}` from file", lib.path.display());
-                        self.included_from
-                            .entry(lib.path.clone())
-                            .or_default()
-                            .push(include.clone());
-                        self.stack.push(lib.path.clone());
+                        let path = lib.path.clone();
+                        self.add_included_from(&path, include);
+                        self.stack.push(path);
                         return Ok(());
                     }
                 }
@@ -184,6 +185,7 @@ impl FileStack {
                     let mut location = file_path.clone();
                     location.pop();
                     self.current_location = Some(location);
+                    self.current_file = Some(file_path.clone());
                     self.black_paths.insert(file_path.clone());
                     break Some(file_path);
                 }
@@ -196,13 +198,28 @@ impl FileStack {
         self.user_inputs.contains(path)
     }
 
-    /// Returns the include statements which refer to the file, if the file is not one of the
-    /// files given by the user.
-    pub fn included_from(&self, path: &PathBuf) -> &[Include] {
-        if self.is_user_input(path) {
-            &[]
-        } else {
-            self.included_from.get(path).map_or(&[], |includes| includes.as_slice())
+    fn add_included_from(&mut self, path: &PathBuf, include: &Include) {
+        let file = self.current_file.clone().expect("parsing file");
+        self.included_from.entry(path.clone()).or_default().push((include.clone(), file));
+    }
+
+    /// Returns the include statements through which the file is reached, if the file is not
+    /// one of the files given by the user: the statements which refer to the file, the
+    /// statements which refer to the files those occur in (unless given by the user), and so
+    /// on.
+    pub fn included_from(&self, path: &PathBuf) -> Vec<&Include> {
+        let mut result = Vec::new();
+        let mut visited = HashSet::new();
+        let mut work_list = vec![path];
+        while let Some(path) = work_list.pop() {
+            if self.is_user_input(path) || !visited.insert(path) {
+                continue;
+            }
+            for (include, file) in self.included_from.get(path).into_iter().flatten() {
+                result.push(include);
+                work_list.push(file);
+            }
         }
+        result
     }
 }
